@@ -124,6 +124,34 @@ def census_crate(run, doc, cfgname, entry_reach_only=True, full=None):
     return F
 
 
+DEP_AMBIENT = [re.compile(x) for x in (r"^std::env::", r"^std::fs::", r"^std::io::", r"^std::net::", r"^std::process::", r"^std::time::", r"^std::thread::", r"^std::sync::", r"^core::sync::atomic",
+                                         r"^std::cell::", r"^core::cell::", r"^std::collections::hash", r"RandomState", r"^rand(_core)?::", r"LocalKey", r"^getrandom::", r"^std::random::")]
+
+
+def dep_ambient_census(run, doc):
+    """Over-approximation for dependencies: *every* function body of the crate (not only the reachable ones)
+    is scanned for ambient-state callees (unsafe pointer code as in arrayvec is not an ambient effect)."""
+    crate = doc["crate"]
+    nf = nc = 0
+    for f in doc["fns"]:
+        m = f.get("mir")
+        if not m:
+            continue
+        nf += 1
+        for b in m["blocks"]:
+            t = b["term"]
+            if t["k"] == "call" and t["func"].get("fn"):
+                nc += 1
+                nm = t["func"]["fn"]["def"]
+                for r in DEP_AMBIENT:
+                    if r.search(nm):
+                        run.ob(False, "dep-ambient|%s|%s|%s" % (crate, f["path"][:80], nm), "C16-6 no ambient-state callee anywhere in a runtime dependency", "%s %s" % (f["file"], f["path"]), "calls %s" % nm)
+                        break
+    run.ob(True, "dep-ambient-census|%s" % crate, "C16-6", crate, sample={"dependency": crate, "function_bodies": nf, "resolved_calls": nc, "ambient_callees": 0})
+    if crate in ("rust_decimal", "num_complex", "num_traits"):
+        run.floor("bodies analysed in %s" % crate, nf, 100)
+
+
 def feature_subsets():
     fs = extract.ALL_FEATURES
     out = []
@@ -137,7 +165,7 @@ def main(tier):
     run = Run(PID, tier, LEVEL)
     run.trusted = ["rustc type checker and MIR construction (nightly 1.97)", "Rust aliasing rules: safe code without statics or interior mutability cannot retain state",
                    "std / libm functions called are deterministic functions of their arguments",
-                   "dependency crates: item census only (statics), bodies not analysed"]
+                   "dependency crates: statics census + ambient-callee census over every function body with MIR (thorough tier); their unsafe code (arrayvec) is trusted not to leak addresses"]
     run.assumptions = ["allocator state and allocation failure are not observable through the API", "stack depth (see C01) is not a result"]
     try:
         doc = extract.load()
@@ -169,12 +197,19 @@ def main(tier):
         # dependency crates: static census
         try:
             ddir, info = extract.extract(deps=True)
-            crates = [c for c in extract.list_crates(ddir) if c != "string_calculator"]
+            import subprocess
+            tr = subprocess.run(["cargo", "tree", "-e", "normal", "--offline", "--prefix", "none"], cwd=extract.repo_dir(), stdout=subprocess.PIPE, stderr=subprocess.DEVNULL, text=True).stdout
+            runtime = {l.split()[0].replace("-", "_") for l in tr.splitlines() if l.strip()} - {"string_calculator"}
+            if not runtime:
+                run.fail_closed("cargo tree returned no runtime dependencies")
+            crates = [c for c in extract.list_crates(ddir) if c != "string_calculator" and c in runtime]
+            run.coverage_extra["build_only_crates_skipped"] = [c for c in extract.list_crates(ddir) if c != "string_calculator" and c not in runtime]
             import json, os
             for c in crates:
                 with open(os.path.join(ddir, c + ".facts.json")) as fh:
                     dd = json.load(fh)
                 census_crate(run, dd, "deps")
+                dep_ambient_census(run, dd)
             run.floor("dependency crates analysed", len(crates), 3)
             run.coverage_extra["dependency_crates"] = crates
         except extract.ExtractError as e:
